@@ -3,6 +3,8 @@
 import json, glob, os
 rows = []
 for d in sorted(glob.glob('/verif/seeded/*/')):
+    if not os.path.exists(d + 'meta.json'):
+        continue
     n = os.path.basename(d.rstrip('/'))
     m = json.load(open(d + 'meta.json'))
     caught = m.get('caught_by') or []
